@@ -75,12 +75,13 @@ type gateX struct {
 }
 
 func execGateCase(c *Case) []ModeResult {
-	verdict, short := gateOnce(nil, c)
-	return []ModeResult{{"gate", verdict, short}}
+	verdict, short := gateOnce(nil, c, false)
+	v2, s2 := gateOnce(nil, c, true)
+	return []ModeResult{{"gate", verdict, short}, {"gate:spare-capacity", v2, s2}}
 }
 
 // gateOnce puts one input list through the gate of op (a fresh instance of c.Op when op is nil).
-func gateOnce(op ops.Operator, c *Case) (string, string) {
+func gateOnce(op ops.Operator, c *Case, spare bool) (string, string) {
 	var x gateX
 	if err := json.Unmarshal(c.X, &x); err != nil {
 		return "infra:" + err.Error(), ""
@@ -95,6 +96,17 @@ func gateOnce(op ops.Operator, c *Case) (string, string) {
 			return "infra:" + err.Error(), ""
 		}
 		inputs[i] = t
+	}
+	if spare {
+		// the same list as a prefix of a longer buffer whose spare capacity holds stale tensors: omitted trailing optional inputs
+		// must still come out absent
+		buf := make([]tensor.Tensor, len(inputs), len(inputs)+12)
+		copy(buf, inputs)
+		full := buf[:cap(buf)]
+		for i := len(inputs); i < len(full); i++ {
+			full[i] = tensor.New(tensor.WithShape(1), tensor.WithBacking([]float32{float32(100 + i)}))
+		}
+		inputs = buf
 	}
 	before := snapshotAll(inputs)
 	var outs []tensor.Tensor
